@@ -62,7 +62,15 @@ class LowerLinalgBody(RewritePattern):
             return
 
         # only works for non-fused kernels (only 1 kernel op)
-        if not isinstance(kernel_op.next_op, linalg.YieldOp):
+        if not isinstance(yield_op := kernel_op.next_op, linalg.YieldOp):
+            return
+
+        # the equivalent region is wired to the block arguments by position: the kernel op must
+        # take the leading block arguments in order and its result must be what is yielded
+        block_args = linalg_op.body.block.args
+        if tuple(kernel_op.operands) != tuple(block_args[: len(kernel_op.operands)]):
+            return
+        if tuple(yield_op.operands) != tuple(kernel_op.results):
             return
 
         # replace linalg op
